@@ -201,6 +201,53 @@ async def run_proto_port(run: dict) -> list[dict]:
     return out
 
 
+async def run_proto_late(run: dict) -> list[dict]:
+    """History independence: the same address pairs are offered *before* the transport has reported the active
+    gateway (judged under the configuration with no active gateway, item `proto_late_pre`) and again after
+    connection_made() (judged under the configuration itself): what the filter answered earlier must not matter."""
+    loop = asyncio.get_running_loop()
+    VDT._loop = loop
+    cfg, ids, got = run["cfg"], run["ids"], []
+    p, active = _make_protocol(PortProtocol, cfg, ids, got)
+    t = Xport(p, loop, active)
+    pre: list[dict] = []
+    for n, row in enumerate(run["rows"]):
+        if row["dir"] != "rx":
+            continue
+        fr = frame_of(row, ids, n)
+        if not decodable(fr, False):
+            continue
+        o = _blank(row)
+        pkt = t.make_pkt(fr)
+        got.clear()
+        p.pkt_received(pkt)
+        await _drain()
+        o["delivered"] = len(got) > 0
+        pre.append(o)
+    run["_pre_out"] = pre
+    p.connection_made(t, ramses=True)
+    await _drain()
+    out = []
+    for n, row in enumerate(run["rows"]):
+        fr = frame_of(row, ids, n)
+        o = _blank(row)
+        if row["dir"] == "rx":
+            if not decodable(fr, False):
+                continue
+            pkt = t.make_pkt(fr)
+            got.clear()
+            p.pkt_received(pkt)
+            await _drain()
+            o["delivered"] = len(got) > 0
+        else:
+            if not decodable(fr, True):
+                continue
+            cmd = Command(fr)
+            await _send(lambda c: p.send_cmd(c, qos=QosParams(max_retries=0, timeout=2)), cmd, t, o)
+        out.append(o)
+    return out
+
+
 async def run_proto_read(run: dict) -> list[dict]:
     loop = asyncio.get_running_loop()
     VDT._loop = loop
@@ -361,7 +408,8 @@ async def run_restore(run: dict) -> list[dict]:
     return out
 
 
-RUNNERS = {"proto_port": run_proto_port, "proto_read": run_proto_read, "gateway": run_gateway, "send": run_send,
+RUNNERS = {"proto_port": run_proto_port, "proto_read": run_proto_read, "proto_late": run_proto_late,
+           "gateway": run_gateway, "send": run_send,
            "file": run_file, "restore": run_restore}
 
 
@@ -376,13 +424,18 @@ def execute_runs(runs: list[dict]) -> tuple[list[dict], int]:
         rows, loop = vloop.run(lambda: RUNNERS[lvl](run))
         for ctx in loop.exc[:3]:
             LOOP_EXC.append(f"{lvl}: {ctx.get('message')} {ctx.get('exception')!r}"[:300])
-        want = sum(1 for r in run["rows"] if lvl in ("proto_port", "proto_read") or
+        want = sum(1 for r in run["rows"] if lvl in ("proto_port", "proto_read", "proto_late") or
                    r["dir"] == ("tx" if lvl == "send" else "rx"))
         skipped += want - len(rows)
         for r in rows:
             r.pop("exc", None)
         name = lvl + ("+eav" if opts.get("eavesdrop") else "") + ("+fresh" if opts.get("fresh") else "")
         items.append({"cfg": run["cfg"], "lvl": name, "ids": run["ids"], "opts": opts, "rows": rows})
+        if lvl == "proto_late":
+            pre = run.get("_pre_out", [])
+            for r in pre:
+                r.pop("exc", None)
+            items.append({"cfg": opts["pre_cfg"], "lvl": "proto_late_pre", "ids": run["ids"], "opts": opts, "rows": pre})
     return [i for i in items if i["rows"]], skipped
 
 
